@@ -169,6 +169,49 @@ def run_one(argv, env=None, timeout=120):
     return rc, recs, out, err
 
 
+# ---- offline symbolisation (children run with symbolize=0: a crash costs milliseconds, not 100s of ms)
+_SYM_CACHE = {}
+_RAW_FRAME = re.compile(r"#(\d+) 0x[0-9a-f]+ +\((/[^\s+)]+)\+0x([0-9a-f]+)\)")
+
+
+def symbolize_report(text):
+    """Rewrites '#N 0xADDR (module+0xOFF)' frames as '#N 0xADDR in FUNC FILE:LINE' using llvm-symbolizer."""
+    if not text or " in " in text and "(BuildId" not in text and not _RAW_FRAME.search(text):
+        return text
+    frames = _RAW_FRAME.findall(text)
+    if not frames:
+        return text
+    need = {}
+    for _, mod, off in frames:
+        if (mod, off) not in _SYM_CACHE:
+            need.setdefault(mod, []).append(off)
+    for mod, offs in need.items():
+        offs = sorted(set(offs))
+        try:
+            inp = "\n".join("0x" + o for o in offs) + "\n"
+            r = subprocess.run(["llvm-symbolizer-14", "--obj=" + mod, "--functions=linkage", "--demangle", "--inlines"], input=inp, capture_output=True, text=True, timeout=120)
+            blocks = r.stdout.split("\n\n")
+            for o, b in zip(offs, blocks):
+                lines = [l for l in b.strip().splitlines() if l.strip()]
+                pairs = []
+                for i in range(0, len(lines) - 1, 2):
+                    pairs.append((lines[i].strip(), lines[i + 1].strip()))
+                _SYM_CACHE[(mod, o)] = pairs or [("??", "??:0")]
+        except Exception:
+            for o in offs:
+                _SYM_CACHE[(mod, o)] = [("??", "??:0")]
+    out = []
+    for line in text.splitlines():
+        m = _RAW_FRAME.search(line)
+        if not m:
+            out.append(line)
+            continue
+        n, mod, off = m.groups()
+        for fn, loc in _SYM_CACHE.get((mod, off), [("??", "??:0")]):
+            out.append("    #%s 0x0 in %s %s" % (n, fn, loc))
+    return "\n".join(out)
+
+
 # ---- sanitizer report triage -------------------------------------------------------------------
 _FRAME = re.compile(r"#\d+ 0x[0-9a-f]+ in (.+?) (/[^\s:]+)(?::(\d+))?")
 _FRAME_TSAN = re.compile(r"#\d+ (.+?) (/[^\s:]+):\d+(?::\d+)? \(")
@@ -180,6 +223,7 @@ def classify_sanitizer(stderr, repo_prefix=None):
         return None
     if repo_prefix is None:
         repo_prefix = os.environ.get("VERIF_REPO", "/repo").rstrip("/") + "/"
+    stderr = symbolize_report(stderr)
     kind = None
     m = re.search(r"ERROR: AddressSanitizer: ([\w-]+)", stderr)
     if m:
@@ -226,7 +270,7 @@ def classify_sanitizer(stderr, repo_prefix=None):
 def class_of_death(rec):
     """Violation class string for a died record."""
     c = classify_sanitizer(rec.get("stderr", ""))
-    if rec.get("hung"):
+    if rec.get("hung") or rec.get("exit") == -26:
         return "hang", c
     if c:
         return "%s@%s" % (c["kind"], c["first_repo_function"] or "?"), c
